@@ -134,6 +134,10 @@ def run(command, timeout=30, withexitstatus=False, events=None,
                                 "a string, method, or function: {value!r}"
                                 .format(index=index, value=responses[index]))
             event_count = event_count + 1
+            if child.after is EOF:
+                # EOF was one of the events: it has been answered, and the
+                # stream has ended, so there is nothing more to wait for.
+                break
         except TIMEOUT:
             child_result_list.append(child.before)
             break
